@@ -112,18 +112,18 @@ type Cert struct {
 
 // Tmpl describes one certificate.
 type Tmpl struct {
-	Subject    pkix.Name
-	RawSubject []pkix.RelativeDistinguishedNameSET // overrides Subject when non-nil (multi-valued RDNs, duplicates, odd OIDs)
-	NotBefore  time.Time
-	NotAfter   time.Time
-	CA         bool
-	PathLen    int // -1: absent
-	KeyUsage   x509.KeyUsage
-	EKU        []x509.ExtKeyUsage
+	Subject     pkix.Name
+	RawSubject  []pkix.RelativeDistinguishedNameSET // overrides Subject when non-nil (multi-valued RDNs, duplicates, odd OIDs)
+	NotBefore   time.Time
+	NotAfter    time.Time
+	CA          bool
+	PathLen     int // -1: absent
+	KeyUsage    x509.KeyUsage
+	EKU         []x509.ExtKeyUsage
 	EKUCritical bool // timestamping leaf needs a critical EKU extension
-	NoKeyUsage bool
-	CRLURLs    []string
-	OCSPURLs   []string
+	NoKeyUsage  bool
+	CRLURLs     []string
+	OCSPURLs    []string
 }
 
 // DefaultWindow is the validity used when a template leaves the window zero.
@@ -222,14 +222,15 @@ func (c *Chain) Root() *Cert { return c.Certs[len(c.Certs)-1] }
 
 // ChainOpts describes a code-signing chain.
 type ChainOpts struct {
-	Len       int    // 1 = self-signed leaf, 2 = leaf<-root, 3 = leaf<-inter<-root, ...
-	LeafSpec  string // key spec of the leaf (default ec256)
-	LeafIdx   int    // key index of the leaf
-	CAIdx     int    // key index base for CA keys (ec256)
-	Prefix    string // CN prefix
-	Leaf      *Tmpl  // optional overrides (subject, window...)
-	CAs       []*Tmpl // optional overrides for CAs from the one next to the leaf up to the root
+	Len         int     // 1 = self-signed leaf, 2 = leaf<-root, 3 = leaf<-inter<-root, ...
+	LeafSpec    string  // key spec of the leaf (default ec256)
+	LeafIdx     int     // key index of the leaf
+	CAIdx       int     // key index base for CA keys (ec256)
+	Prefix      string  // CN prefix
+	Leaf        *Tmpl   // optional overrides (subject, window...)
+	CAs         []*Tmpl // optional overrides for CAs from the one next to the leaf up to the root
 	CodeSignEKU bool
+	ReuseCAs    []*Cert // when set, the leaf is issued under these CAs (next-to-leaf first) instead of fresh ones
 }
 
 // NewChain builds a chain that notation-core-go accepts (unless templates say otherwise).
@@ -254,6 +255,10 @@ func NewChain(o ChainOpts) *Chain {
 	}
 	if o.Len == 1 {
 		return &Chain{Certs: []*Cert{Make(leafT, leafKey, nil)}}
+	}
+	if o.ReuseCAs != nil {
+		leaf := Make(leafT, leafKey, o.ReuseCAs[0])
+		return &Chain{Certs: append([]*Cert{leaf}, o.ReuseCAs...)}
 	}
 	// build CAs from the root down
 	nCA := o.Len - 1
